@@ -152,12 +152,9 @@ After(ch, op, S, from, mutated) ==
          THEN LET T == S \cup TouchNamed(acfg, S) IN [ch EXCEPT ![from].snaps = @ \cup T, ![from].done = @ \ T]
     ELSE IF op = "refresh-all"
          THEN LET E == Effective(ch, S, mutated) \cup EffectiveTouch(ch, status, acfg)
-              \* NB: doUpdate decides "there are updates" (=> a check-rerefresh task, which names no snap) BEFORE it
-              \* skips the snaps it cannot refresh, and finalizeUpdate adds that task whenever the list of task sets
-              \* is non-empty -- which it is as soon as there is an alias delta (its task set is appended even if
-              \* every alias task was skipped). Then the API layer starts a change although every snap was skipped:
-              \* a "monitor-only" change operating on no snap.
-              IN IF E = {} /\ (S = {} \/ TouchAll(status, acfg) = {}) THEN ch ELSE Append(ch, NewChange(op, E))
+              \* (a refresh-all that has to skip everything creates no task at all: empty alias task sets are not
+              \*  queued, so no check-rerefresh is added either and nothing is started)
+              IN IF E = {} THEN ch ELSE Append(ch, NewChange(op, E))
     ELSE IF op \in {"refresh", "refresh-many"} THEN Append(ch, NewChange(op, S \cup TouchNamed(acfg, S)))
     ELSE Append(ch, NewChange(op, S))
 
@@ -175,12 +172,7 @@ IsExclusive(c) == c.kind \in Transitions \cup Excl3 \/ (c.kind \in MaybeDown /\ 
 StmtExclLive(ch, from) == \E i \in Live(ch) : i # from /\ IsExclusive(ch[i])
 
 NoMon == [kind |-> "none", all |-> FALSE, result |-> "none", busy |-> FALSE, excl |-> FALSE, stale |-> FALSE,
-          same |-> TRUE, idle |-> TRUE]
-
-\* nothing that operates on a snap was started (a monitor-only change of "refresh all" is tolerated, see After)
-Idle(op) == \/ changes' = changes
-            \/ /\ op = "refresh-all" /\ Len(changes') = Len(changes) + 1
-               /\ SubSeq(changes', 1, Len(changes)) = changes /\ changes'[Len(changes')].snaps = {}
+          same |-> TRUE]
 
 \* result: "accepted" | "conflict"
 MonOf(op, S, from, mutated, result) ==
@@ -188,8 +180,7 @@ MonOf(op, S, from, mutated, result) ==
      busy   |-> StmtBusy(changes, op, S, from),
      excl   |-> op \notin Irrelevant /\ StmtExclLive(changes, from),
      stale  |-> op \in StoreOps \ {"refresh-all"} /\ mutated # {},
-     same   |-> changes' = changes /\ status' = status /\ acfg' = acfg,
-     idle   |-> Idle(op)]
+     same   |-> changes' = changes /\ status' = status /\ acfg' = acfg]
 
 (***************************************************************************)
 (* Actions                                                                 *)
@@ -268,8 +259,8 @@ RejectIfBusy == (IsReq /\ mon.busy) => mon.result = "conflict"
 
 \* while an exclusive change is in progress no other change can be started
 NoStartDuringExclusive ==
-    (IsReq /\ mon.excl) => (mon.idle /\ (~mon.all => (mon.same /\ mon.result = "conflict")))
-    \* ("refresh all" skips what it cannot refresh instead of failing: it must then operate on no snap)
+    (IsReq /\ mon.excl) => (mon.same /\ (~mon.all => mon.result = "conflict"))
+    \* ("refresh all" skips what it cannot refresh instead of failing: it must then start nothing at all)
 
 \* a request whose snap record changed while it was being prepared is rejected
 StaleRejected == (IsReq /\ mon.stale) => mon.result = "conflict"
@@ -286,8 +277,7 @@ NoOverlap ==
 \* while an exclusive change is live, every other live change was there before it
 \* (nothing starts during it) -- consequence of NoStartDuringExclusive, state form
 ExclusiveLast ==
-    \A i, j \in Live(changes) : (i < j /\ IsExclusive(changes[i])) =>
-        (changes[j].kind \in Irrelevant \/ (changes[j].kind = "refresh-snap" /\ changes[j].snaps = {}))
+    \A i, j \in Live(changes) : (i < j /\ IsExclusive(changes[i])) => changes[j].kind \in Irrelevant
 
 \* STRONGER than the statement, and NOT an invariant of the code as transcribed: an exclusive change
 \* can be started while a plain refresh-snap / revert-snap change is unfinished (see ExclErr).
